@@ -176,6 +176,9 @@ var ctxBuildLock sync.Mutex
 func solveLocked(mu *sync.Mutex, fr *FuncResult, o *Obligation, timeoutS int, thorough bool) {
 	// BuildScript mutates the context (hash-consing of negated goals): guard it globally per call
 	solveObligationLocked(mu, fr, o, timeoutS, thorough)
+	if os.Getenv("GOVC_PROGRESS") != "" {
+		fmt.Fprintf(os.Stderr, "  [%s] %-8s %-28s %6.1fs %7dB  %s\n", time.Now().Format("15:04:05"), o.Status, o.Backend, o.Seconds, o.Script, o.Name)
+	}
 }
 
 func solveObligationLocked(mu *sync.Mutex, fr *FuncResult, o *Obligation, timeoutS int, thorough bool) {
@@ -215,6 +218,11 @@ func solveObligationLocked(mu *sync.Mutex, fr *FuncResult, o *Obligation, timeou
 			s2 := c.BuildScript(sl, o.Goal, nil, ScriptOpts{Opaque: o.Opaque})
 			sliced = &s2
 		}
+	}
+	var cutScript *Script
+	if len(o.Cut) > 0 && !o.ExpectSat {
+		s3 := build(o.Cut...)
+		cutScript = &s3
 	}
 	var splitScripts []Script
 	for _, cond := range o.Split {
@@ -264,12 +272,32 @@ func solveObligationLocked(mu *sync.Mutex, fr *FuncResult, o *Obligation, timeou
 			r = r2
 		}
 	}
+	if r.Status != "unsat" && r.Status != "error" && cutScript != nil {
+		// not discharged on its own: use the earlier conjuncts (proved separately) as lemmas
+		rc := runPortfolio(cutScript.Text, timeoutS, false)
+		o.Seconds += rc.Seconds
+		if rc.Status == "unsat" {
+			o.Status, o.Backend = "unsat", rc.Backend+" (earlier clauses as lemmas)"
+			return
+		}
+		if rc.Status == "sat" || r.Status != "sat" {
+			r = rc
+		}
+	}
 	if r.Status != "sat" && r.Status != "unsat" && len(splitScripts) > 1 {
 		all := true
 		backends := map[string]bool{}
-		for _, s2 := range splitScripts {
+		for si, s2 := range splitScripts {
 			rr := runPortfolio(s2.Text, timeoutS, false)
 			o.Seconds += rr.Seconds
+			if os.Getenv("GOVC_SPLITDEBUG") != "" {
+				fmt.Fprintf(os.Stderr, "    split %d/%d of %s: %s %s %.1fs\n", si+1, len(splitScripts), o.Name, rr.Status, rr.Backend, rr.Seconds)
+				if rr.Status != "unsat" {
+					all = false
+					r = rr
+				}
+				continue
+			}
 			if rr.Status != "unsat" {
 				all = false
 				r = rr
